@@ -7,6 +7,35 @@ from . import c05_solver
 CREATE = "mlpg_adjust::MlpgAdjust::<'a>::create"
 
 
+def no_early_return(ctx, p, cr, rule):
+    """every return of MlpgAdjust::create() follows the completed column loop: an early return would
+    hand out zero-initialised rows without the generated values / the no-data fill (shared by
+    C05-R2 and C11-R5: unvoiced frames must carry the no-data marker)"""
+    from ..expr import stores
+    eb = ExprBuilder(cr)
+    # every return of create() comes after the completed column loop over 0..self.vector_length:
+    # an early return would hand out the zero-initialised rows without the no-data fill
+    from ..loops import loop_var_parts
+    col_loops = set()
+    for bb, i, st, tgt, root, chain, val in stores(cr, eb):
+        for g in paths.guards(cr, bb, eb):
+            if g[0] == "some" and isinstance(g[1], tuple):
+                lv = loop_var_parts(("field", ("variant", g[1], "Some"), "0"))
+                if lv and lv[0] == "up" and show(lv[1]) == "0" and show(lv[2]) == "self.vector_length":
+                    col_loops.add(g[1])
+    rets = [(bb, e) for bb, e, item in paths.return_exprs(cr, eb)]
+    if len(col_loops) != 1:
+        ctx.fail(rule, cr.path, "column loop", "expected one loop over 0..self.vector_length around the column store, found %d" % len(col_loops), cr.loc())
+    else:
+        loop = next(iter(col_loops))
+        early = [bb for bb, e in rets if not any(g[0] == "none" and g[1] == loop for g in paths.guards(cr, bb, eb))]
+        if rets and not early:
+            ctx.ok(rule, "every return of create() follows the completed column loop (no early return with unfilled rows)", cr.loc())
+        else:
+            ctx.fail(rule, cr.path, "early return", "create() can return before the column loop over 0..self.vector_length has run: the rows keep their zero initialisation instead of the generated / no-data values (return at %s)" % [cm.loc_of(cr.blocks[bb]["term"]["span"]) for bb in early], cr.loc())
+
+
+
 def run(ctx):
     ctx.rule("C05-R1", "masking predicate: the precision is replaced by zero exactly on (left < window.left_width() OR right < window.right_width()) AND window_index != 0 (truth table over the three atoms); with_0 writes 0.0 to the precision and keeps the mean")
     ctx.rule("C05-R2", "masked-out frames are filled with the no-data constant")
@@ -107,26 +136,7 @@ def run(ctx):
         else:
             ctx.fail("C05-R2", cr.path, "column store", "the filled trajectory is not stored at [vector_index] of each row", cr.loc())
 
-        # every return of create() comes after the completed column loop over 0..self.vector_length:
-        # an early return would hand out the zero-initialised rows without the no-data fill
-        from ..loops import loop_var_parts
-        col_loops = set()
-        for bb, i, st, tgt, root, chain, val in stores(cr, eb):
-            for g in paths.guards(cr, bb, eb):
-                if g[0] == "some" and isinstance(g[1], tuple):
-                    lv = loop_var_parts(("field", ("variant", g[1], "Some"), "0"))
-                    if lv and lv[0] == "up" and show(lv[1]) == "0" and show(lv[2]) == "self.vector_length":
-                        col_loops.add(g[1])
-        rets = [(bb, e) for bb, e, item in paths.return_exprs(cr, eb)]
-        if len(col_loops) != 1:
-            ctx.fail("C05-R2", cr.path, "column loop", "expected one loop over 0..self.vector_length around the column store, found %d" % len(col_loops), cr.loc())
-        else:
-            loop = next(iter(col_loops))
-            early = [bb for bb, e in rets if not any(g[0] == "none" and g[1] == loop for g in paths.guards(cr, bb, eb))]
-            if rets and not early:
-                ctx.ok("C05-R2", "every return of create() follows the completed column loop (no early return with unfilled rows)", cr.loc())
-            else:
-                ctx.fail("C05-R2", cr.path, "early return", "create() can return before the column loop over 0..self.vector_length has run: the rows keep their zero initialisation instead of the generated / no-data values (return at %s)" % [cm.loc_of(cr.blocks[bb]["term"]["span"]) for bb in early], cr.loc())
+        no_early_return(ctx, p, cr, "C05-R2")
 
     # ---- R3
     if outer is not None and cr is not None:
